@@ -18,7 +18,11 @@ CASE_TIMEOUT = 5.0
 RULE = ("scenarios: ts pool with one allocator thread and 1..3 freer threads, ts pool with 2..3 threads that all "
         "allocate and free, sowr pool with one allocator and one freer (free-order usage, alloc_idx preset near the "
         "uint32 wrap in part of the cases), ring pool (threadsafe_alloc with 2..3 allocating threads; plain alloc with "
-        "one allocating thread plus freer threads); requested capacities 1..8; scripts of alloc / free-k-th-outstanding "
+        "one allocating thread plus freer threads); requested capacities 0..8 (0: ts refuses, sowr default 8, ring minimum 2) "
+        "and 9..70 (rounded 16..128) in the *big families; data_size 1..300 given to init (boundaries of the block-size "
+        "formulas: 55/56/57, 63/64/65, 111/112/113, 119/120/121, 255/256/257), default 24 in a third of the cases; the "
+        "whole user region [p, p+data_size) is written with a per-block pattern, verified at free, checked for containment "
+        "in the slab obtained from the allocator and disjointness from every outstanding region; scripts of alloc / free-k-th-outstanding "
         "/ free-k-th-own operations; x seeded random schedules (context-switch density 20/50/80/90 %, weak-CAS spurious "
         "failure 0/20 %) and the model-derived ABA schedule, run on the real code under the deterministic scheduler; "
         "every trace replayed on the extracted model; non-trivial = the trace contains a contended or failed "
@@ -33,6 +37,16 @@ TRUSTED_BASE = [
     "and the side condition ts_mo_ok is discharged against them",
     "composition of the spinlock (proved in C04) into the ts free path and ring threadsafe_alloc is by re-modelling the "
     "test-and-set/clear steps here (mutual exclusion is re-proved as part of the C05 invariants)",
+    "second tie (translator kind): lib/props/c05_slice.py executes alloc / free / init of the three pools symbolically on the clang "
+    "JSON AST of the C text of this run (atomic loads -> inputs ld<k>, weak compare-exchange -> inputs cur<k>/spur<k>, block "
+    "pointers -> (block index, width of the offset product, byte offset), same-file helpers inlined, retry / scan loops "
+    "unrolled twice, init loops summarised with lfill, muggle_next_pow_of_2 uninterpreted) and lib/leaftrans.py translates the "
+    "integer expressions with their C widths (coq/gen/Params_C05.v gen_*); obligations gen_*_matches_model prove them equal to "
+    "reference functions for every capacity 2^0..2^31 (complete sweep), every uint32 cursor value and every value another "
+    "thread may store, by a shape-independent decision tactic, and express the model's steps / tinit / sinit / rinit / "
+    "next_pow2 / block geometry with the same references; trusted: clang 14 AST, the slicer and the translator, type sizes "
+    "and enum values printed by harness/drivers/c05_params.c compiled against the checked tree; muggle_next_pow_of_2 itself is "
+    "C20's model (coq/C20/Model.v model_npo2, tied to utils.c by C20's gen_npo2_eq and proved least-power-of-two there)",
 ]
 ASSUMPTIONS = [
     "free is only given blocks that are outstanding, each once (the harness ownership list guarantees it)",
@@ -41,6 +55,27 @@ ASSUMPTIONS = [
     "ts pool theorems at full strength need a single allocator thread; with >= 2 allocator threads see the known finding",
 ]
 EVIDENCE_NOTES = [
+    "translator tie: an edit of threadsafe_memory_pool.c / sowr_memory_pool.c / ring_memory_pool.c that changes, anywhere in the "
+    "domain, the alloc position / cursor advance, an exhaustion test, the block a pointer denotes, the sowr free rule "
+    "free_idx = block_idx + 1, the width of a cursor or of a block-offset product, the capacity rounding / defaults / refusals, "
+    "the block-size formula, a requested allocation size or the initial ring contents, or makes a function unsliceable, breaks a "
+    "gen_*_matches_model obligation even when no generated history reaches the difference.  Not in the translator tie: memory "
+    "orders (extracted separately), the spinlock, destroy, muggle_sowr_memory_pool_is_all_free, the order of plain accesses "
+    "inside one plain segment, a third and later iteration of the CAS-retry / in_use-scan loops (the unrolling stops there; "
+    "the trace acceptance covers them).",
+    "init-time size arithmetic is 32-bit in the C text (block_size, capacity * block_size, block_size * i are products of "
+    "muggle_sync_t): *_init_sizes_partial prove exactness, block_size >= head + data_size, exact block offsets and the initial "
+    "ring whenever the data area is below 4 GiB; *_init_sizes_refuted exhibit accepted arguments (capacity 8, data_size 2^29; "
+    "ts: data_size 2^32-8; ring: data_size 2^31) for which init returns MUGGLE_OK with a wrapped allocation size or a block "
+    "smaller than the data (ring: block_size 0).  Reported to the coordinator as a suspected defect (pools above 4 GiB); the "
+    "model keeps the code's arithmetic.",
+    "known classes are attributed causally (TsCausal in lib/props/c05.py): a double hand-out is ts-aba only if the allocation's "
+    "own read-to-CAS window contains another allocator's successful CAS (full alloc_idx cycle), or its exhaustion test used the "
+    "racy cached_free_pos (rewritten by another thread before its CAS / a stale write-back still in effect), or such an "
+    "allocation corrupted the ring before (returned a pointer that is not the current ptrs[expected], or took a slot beyond the "
+    "usable capacity); an early NULL is ts-stale-null only if the returning thread's own expected was stale or the pool was "
+    "corrupted that way.  Any other multi-allocator anomaly is a VIOLATION.  Cases attributed to a class are still diffed "
+    "against the model (bin/check).",
     "ts pool: cached_free_pos is a plain field read and written by every allocator thread (a data race in the code); it is modelled as a sequentially consistent cell.  The model shows that this race WIDENS the known class beyond the alloc_idx ABA: (W1) alloc_idx completes a full cycle between an allocator's read of ptrs[expected] and its successful CAS (ABA); (W2) an allocator writes back a free_idx value loaded before other allocations moved alloc_idx (stale cache); (W3) an allocator's CAS succeeds although another allocator rewrote cached_free_pos after this one compared against it.  Each of W2/W3 alone leads to a double hand-out without any ABA (Example ts_cache_race_refuted).",
     "ts_no_double_handout_partial is proved in full for the finalised class (complement of: >= 2 allocator threads AND the model's sticky ghost flag t_race, raised exactly at W1/W2/W3).  Relative to DESIGN.md's first guess of the class ('alloc_idx completes a full cycle inside one read-to-CAS window') the proved safe region is smaller: W2 and W3 are flagged conservatively (any allocation between load and write-back; any foreign write of cached_free_pos between compare and CAS), although some such interleavings are harmless.",
     "visibility: ts_reads_covered is proved for the single-allocator usage (every plain ptrs[] read / lock-protected write covered by the thread's view, given the extracted memory orders).  For several allocators it is REFUTED even outside the known class (ts_multi_visibility_refuted: an allocator that never synchronised reads an entry written by a free, because cached_free_pos is shared unsynchronised and the CAS on alloc_idx is relaxed) -- a C11 data race on ptrs[] that x86 cannot exhibit; recorded as an observation of the model, not replayable on the implementation.  sowr pool: no plain data crosses threads inside the pool (sowr_plain_fields_private).  ring pool: cursor / in_use=1 accesses are mutually exclusive and lock-ordered (ring_cursor_exclusive); that the next lock holder sees the previous holder's writes is C04's lock theorem for the same spinlock (composition, not re-proved with views here).",
@@ -63,9 +98,25 @@ def build_impl(ctx):
     return V.build_vsched_driver(ID, C_DRIVER, REPO_SOURCES)
 
 
-def _mk(name, pool, scripts, sched):
-    return V.Case(name, ["pool " + pool] + ["thr " + (s if s else "-") for s in scripts] + ["sched " + sched],
-                  {"pool": pool})
+def _mk(name, pool, scripts, sched, dsize=None):
+    return V.Case(name, ["pool " + pool] + (["dsize %d" % dsize] if dsize is not None else []) +
+                  ["thr " + (s if s else "-") for s in scripts] + ["sched " + sched], {"pool": pool})
+
+
+# data sizes given to init: the boundaries of the block-size formulas (ts: 8 + d rounded to 64, + 128;
+# sowr: 16 + d; ring: next power of two of d + 144) and random values up to 300
+DSIZES = [1, 7, 8, 24, 40, 48, 55, 56, 57, 63, 64, 65, 104, 111, 112, 113, 119, 120, 121, 128, 200, 255, 256, 257, 300]
+BIGCAPS = [9, 12, 16, 17, 24, 31, 32, 33, 48, 63, 64, 65, 70]
+
+
+def _dsize(rng):
+    """None (the driver's default 24) in a third of the cases, a boundary in a third, random 1..300 otherwise"""
+    k = rng.below(3)
+    if k == 0:
+        return None
+    if k == 1:
+        return rng.choice(DSIZES)
+    return rng.range(1, 300)
 
 
 def _discovery_cases():
@@ -99,7 +150,58 @@ def gen_params(ctx):
     return ("(* generated by lib/props/c05.py from the memory orders observed at each atomic site of\n"
             "   threadsafe_memory_pool.c / sowr_memory_pool.c / ring_memory_pool.c / spinlock.c on this run; do not edit *)\n"
             "From MV Require Import C05.Model.\n" + "\n".join(notes) + ("\n" if notes else "") +
-            "Definition code_params : params :=\n  {| " + ";\n     ".join(fields) + " |}.\n")
+            "Definition code_params : params :=\n  {| " + ";\n     ".join(fields) + " |}.\n" + leaf_text())
+
+
+# second tie (DESIGN.md 4.4): the index arithmetic between the atomic operations, sliced out of the C text of
+# this run (lib/props/c05_slice.py) and translated with the shared translator lib/leaftrans.py
+PARAMS_C = "harness/drivers/c05_params.c"
+
+
+def _sizes_and_consts():
+    """type sizes / enum values as the headers of the checked tree define them (params program of this run)"""
+    V.gen_config_header()
+    outdir = os.path.join(V.BUILD, ID)
+    os.makedirs(outdir, exist_ok=True)
+    exe = os.path.join(outdir, "params.%d" % os.getpid())
+    sizeofs, consts = {}, {}
+    rc, out, err = V.sh([V.CC, "-std=gnu11", "-w", "-I" + V.REPO, "-I" + V.GEN_INC,
+                         os.path.join(V.VERIF, PARAMS_C), "-o", exe], timeout=120)
+    if rc == 0:
+        rc, out, err = V.sh([exe], timeout=20)
+        for ln in out.split("\n"):
+            w = ln.split()
+            if len(w) == 3 and w[0] == "sizeof":
+                sizeofs[w[1]] = int(w[2])
+            elif len(w) == 3 and w[0] == "const":
+                consts[w[1]] = int(w[2])
+    try:
+        os.remove(exe)
+    except OSError:
+        pass
+    return sizeofs, consts, (err or "")[-300:] if rc != 0 else ""
+
+
+def leaf_text():
+    from props import c05_slice as S
+    lines = ["", "(* --- index arithmetic re-translated from threadsafe_memory_pool.c / sowr_memory_pool.c /",
+             "   ring_memory_pool.c on this run (lib/props/c05_slice.py + lib/leaftrans.py); do not edit --- *)",
+             "From MV Require Import Lib.Leaf C05.GenLib.", "Local Open Scope Z_scope."]
+    sizeofs, consts, perr = _sizes_and_consts()
+    if perr:
+        lines.append("(* params program failed: %s *)" % perr.replace("*)", "* )").replace("(*", "( *"))
+    for k in sorted(sizeofs):
+        lines.append("Definition code_sizeof_%s : Z := %d." % (k, sizeofs[k]))
+    for k in sorted(consts):
+        lines.append("Definition code_%s : Z := %d." % (k, consts[k]))
+    flags = ["-std=gnu11", "-I" + V.REPO, "-I" + V.GEN_INC, "-DNDEBUG"]
+    for gname, text, err in S.translate_all(V.REPO, flags, sizeofs, consts):
+        if text is None:
+            # a translator failure must BREAK the obligation: the definition is missing, Properties_C05.v fails
+            lines.append("(* %s: %s *)\n" % (gname, err.replace("*)", "* )").replace("(*", "( *")))
+        else:
+            lines.append(text)
+    return "\n".join(lines) + "\n"
 
 
 # ---------------------------------------------------------------------------
@@ -149,34 +251,30 @@ def generate(rng, tier):
         nf = rng.range(1, 3)
         scripts = [_script(rng, rng.range(4, 14), 75, "x")]
         scripts += [",".join("f%d" % rng.below(4) for _ in range(rng.range(2, 8))) for _ in range(nf)]
-        cases.append(_mk("ts1-%d" % i, "ts %d" % cap, scripts, _sched(rng, True)))
+        cases.append(_mk("ts1-%d" % i, "ts %d" % cap, scripts, _sched(rng, True), _dsize(rng)))
     # ts pool, single thread (sequential history, permuted free orders)
     for i in range(n_each // 3):
         cap = rng.range(1, 8)
-        cases.append(_mk("tsseq-%d" % i, "ts %d" % cap, [_script(rng, rng.range(8, 30), 60, "f")], _sched(rng, True)))
+        cases.append(_mk("tsseq-%d" % i, "ts %d" % cap, [_script(rng, rng.range(8, 30), 60, "f")], _sched(rng, True), _dsize(rng)))
     # ts pool, 2..3 threads that all allocate and free (known class: frequently hit)
     for i in range(n_each):
         cap = rng.range(2, 8)
         n = rng.range(2, 3)
         scripts = [_script(rng, rng.range(3, 10), 65, "x") for _ in range(n)]
-        cases.append(_mk("tsN-%d" % i, "ts %d" % cap, scripts, _sched(rng, True)))
+        cases.append(_mk("tsN-%d" % i, "ts %d" % cap, scripts, _sched(rng, True), _dsize(rng)))
     # sowr pool
     for i in range(n_each):
-        cap = rng.range(1, 8)
-        rc = 1
-        while rc < cap:
-            rc *= 2
+        cap = rng.range(0, 8)       # 0: the default capacity 8
+        rc = _round_cap("sowr", cap)
         base = rng.choice([0, 0, rc, (1 << 32) - rc, (1 << 32) - 2 * rc])
         na = rng.range(3, 20)
         scripts = [",".join(["a"] * na), ",".join("f%d" % rng.below(5) for _ in range(rng.range(1, 10)))]
-        cases.append(_mk("sowr-%d" % i, "sowr %d %d" % (cap, base), scripts, _sched(rng)))
+        cases.append(_mk("sowr-%d" % i, "sowr %d %d" % (cap, base), scripts, _sched(rng), _dsize(rng)))
     for i in range(n_each // 3):
-        cap = rng.range(1, 8)
-        rc = 1
-        while rc < cap:
-            rc *= 2
+        cap = rng.range(0, 8)
+        rc = _round_cap("sowr", cap)
         base = rng.choice([0, (1 << 32) - rc])
-        cases.append(_mk("sowrseq-%d" % i, "sowr %d %d" % (cap, base), [_script(rng, rng.range(6, 30), 70, "f")], _sched(rng)))
+        cases.append(_mk("sowrseq-%d" % i, "sowr %d %d" % (cap, base), [_script(rng, rng.range(6, 30), 70, "f")], _sched(rng), _dsize(rng)))
     # ring pool, threadsafe_alloc, several allocating threads (quotas sum to <= rounded capacity)
     for i in range(n_each):
         cap = rng.range(2, 8)
@@ -189,17 +287,15 @@ def generate(rng, tier):
             if rng.chance(2, 3):
                 quotas[rng.below(n)] += 1
         scripts = [_script(rng, rng.range(3, 10), 65, "o", quota=quotas[t]) for t in range(n)]
-        cases.append(_mk("ringL-%d" % i, "ring %d 1" % cap, scripts, _sched(rng)))
+        cases.append(_mk("ringL-%d" % i, "ring %d 1" % cap, scripts, _sched(rng), _dsize(rng)))
     # ring pool, plain alloc, one allocating thread and freer threads
     for i in range(n_each):
-        cap = rng.range(1, 8)
-        rc = 2
-        while rc < cap:
-            rc *= 2
+        cap = rng.range(0, 8)       # 0 and 1: the minimum capacity 2
+        rc = _round_cap("ring", cap)
         nf = rng.range(0, 2)
         scripts = [_script(rng, rng.range(4, 16), 70, "x", quota=rc)]
         scripts += [",".join("f%d" % rng.below(4) for _ in range(rng.range(1, 6))) for _ in range(nf)]
-        cases.append(_mk("ringU-%d" % i, "ring %d 0" % cap, scripts, _sched(rng)))
+        cases.append(_mk("ringU-%d" % i, "ring %d 0" % cap, scripts, _sched(rng), _dsize(rng)))
     # ring pool, the all-owned state: pure allocating thread(s) that allocate more than the capacity while
     # consumers with BLOCKING frees (k >= 100: wait until there is a block to free) release blocks only
     # afterwards; the allocation that finds every block owned must keep scanning until a free has happened.
@@ -225,7 +321,29 @@ def generate(rng, tier):
             per[rng.below(nc)] += 1
         scripts = [",".join(["a"] * k) for k in allocs]
         scripts += [",".join("f%d" % (100 + rng.below(4)) for _ in range(k)) for k in per]
-        cases.append(_mk("ringW%s-%d" % ("L" if locked else "U", i), "ring %d %d" % (cap, locked), scripts, _sched(rng)))
+        cases.append(_mk("ringW%s-%d" % ("L" if locked else "U", i), "ring %d %d" % (cap, locked), scripts, _sched(rng), _dsize(rng)))
+    # capacities above 8 (requested 9 .. 70, rounded 16 .. 128): fill the pool to exhaustion and beyond, free, go on
+    n_big = 60 if q else 600
+    for i in range(n_big):
+        cap = rng.choice(BIGCAPS)
+        kind = ("ts", "sowr", "ring")[i % 3]
+        rc = _round_cap(kind, cap)
+        ds = _dsize(rng)
+        if kind == "ts":
+            k1 = rng.range(rc - 2, rc + 1)
+            script = ",".join(["a"] * k1 + ["f%d" % rng.below(rc) for _ in range(rng.range(1, 5))] + ["a"] * rng.range(1, 6))
+            freer = ",".join("f%d" % rng.below(rc) for _ in range(rng.range(0, 6)))
+            cases.append(_mk("tsbig-%d" % i, "ts %d" % cap, [script] + ([freer] if freer else []), _sched(rng, True), ds))
+        elif kind == "sowr":
+            base = rng.choice([0, 0, (1 << 32) - rc, (1 << 32) - 2 * rc])
+            scripts = [",".join(["a"] * rng.range(rc - 2, rc + 6)), ",".join("f%d" % rng.below(rc) for _ in range(rng.range(1, 8)))]
+            cases.append(_mk("sowrbig-%d" % i, "sowr %d %d" % (cap, base), scripts, _sched(rng), ds))
+        else:
+            script = ",".join(["a"] * rc + ["o%d" % rng.below(rc) for _ in range(rng.range(1, 6))] + ["a"] * rng.range(0, 1))
+            cases.append(_mk("ringbig-%d" % i, "ring %d 0" % cap, [script], _sched(rng), ds))
+    # capacity 0: the thread-safe pool refuses it (the other two have defaults, drawn above)
+    for i in range(4 if q else 20):
+        cases.append(_mk("ts-cap0-%d" % i, "ts 0", ["a,a,f0"], _sched(rng), _dsize(rng)))
     # the model-derived ABA schedule, on every capacity that rounds to 4 and with the single-allocator control
     cases.append(_mk("ts-aba-model-schedule", "ts 4", ABA_SCRIPTS, ABA_SCHED))
     cases.append(_mk("ts-aba-model-schedule-cap3", "ts 3", ABA_SCRIPTS, ABA_SCHED))
@@ -239,14 +357,26 @@ def search(rng, diverging, tier):
         nf = rng.range(1, 3)
         scripts = [_script(rng, rng.range(4, 14), 75, "x")]
         scripts += [",".join("f%d" % rng.below(4) for _ in range(rng.range(2, 8))) for _ in range(nf)]
-        out.append(_mk("search-ts1-%d" % i, "ts %d" % cap, scripts, _sched(rng, True)))
+        out.append(_mk("search-ts1-%d" % i, "ts %d" % cap, scripts, _sched(rng, True), rng.choice(DSIZES)))
     for i in range(1500):
         cap = rng.range(1, 8)
         scripts = [",".join(["a"] * rng.range(3, 20)), ",".join("f%d" % rng.below(5) for _ in range(rng.range(1, 10)))]
-        out.append(_mk("search-sowr-%d" % i, "sowr %d 0" % cap, scripts, _sched(rng)))
+        out.append(_mk("search-sowr-%d" % i, "sowr %d 0" % cap, scripts, _sched(rng), rng.choice(DSIZES)))
     for i in range(1000):
         cap = rng.range(1, 8)
-        out.append(_mk("search-ring-%d" % i, "ring %d 0" % cap, [_script(rng, rng.range(4, 16), 70, "o", quota=2)], _sched(rng)))
+        out.append(_mk("search-ring-%d" % i, "ring %d 0" % cap, [_script(rng, rng.range(4, 16), 70, "o", quota=2)], _sched(rng),
+                       rng.choice(DSIZES)))
+    for i in range(300):
+        cap = rng.choice(BIGCAPS)
+        kind = ("ts", "sowr", "ring")[i % 3]
+        rc = _round_cap(kind, cap)
+        if kind == "ring":
+            scripts = [",".join(["a"] * rc + ["o0", "a"])]
+        else:
+            scripts = [",".join(["a"] * (rc + 1)), ",".join(["f0"] * 3)]
+        # a third of them with large blocks: block offsets beyond 16 bits
+        out.append(_mk("search-big-%d" % i, "%s %d%s" % (kind, cap, {"ts": "", "sowr": " 0", "ring": " 0"}[kind]), scripts,
+                       _sched(rng), rng.choice(DSIZES) if i % 9 < 6 else rng.choice([1000, 2048, 4000, 4096])))
     return out
 
 
@@ -311,12 +441,28 @@ def _scen(case):
 
 
 def _round_cap(kind, c):
+    """capacity the pool works with for a requested capacity (0 for the ts pool: init refuses)"""
     if kind == "ring" and c < 2:
         c = 2
+    if kind == "sowr" and c == 0:
+        c = 8
+    if kind == "ts" and c == 0:
+        return 0
     r = 1
     while r < c:
         r *= 2
     return r
+
+
+HEAD = {"ts": 8, "sowr": 16, "ring": 144}
+
+
+def _dsize_of(case):
+    for ln in case.lines:
+        w = ln.split()
+        if len(w) == 2 and w[0] == "dsize":
+            return int(w[1])
+    return 24
 
 
 def n_allocators(case):
@@ -324,44 +470,114 @@ def n_allocators(case):
     return sum(1 for s in scripts if "a" in s.split(","))
 
 
-def racy_windows(lines, upto=None):
-    """ts pool: which of the racy windows of the allocation path were hit in the trace (prefix up to line
-    index `upto`).  W1 = another thread's successful CAS on alloc_idx between a thread's read of ptrs[expected]
-    (end of its previous plain segment) and its own successful CAS; W2 = a successful CAS by another thread
-    between a thread's load of free_idx and the plain segment that writes it back to cached_free_pos;
-    W3 = another thread writes cached_free_pos (plain segment after its load of free_idx) between a thread's
-    compare with cached_free_pos and its successful CAS."""
-    hits = set()
-    last_p = {}          # tid -> index of the end of its last plain segment
-    last_ev = {}         # tid -> last event op/cell of the thread
-    load_at = {}         # tid -> index of a load of free_idx whose write-back segment has not ended yet
-    cas_ok = []          # (index, tid)
-    cache_w = []         # (index, tid)  plain segments that wrote cached_free_pos
-    for i, ln in enumerate(lines if upto is None else lines[:upto + 1]):
-        w = ln.split()
-        if not w:
-            continue
+class TsCausal:
+    """ts pool, several allocators: causal bookkeeping for the two recorded known classes, from the trace alone.
+    The ring of pointers, alloc_idx / free_idx and the provenance of the racy plain cached_free_pos are
+    reconstructed, and every successful allocation (CAS on alloc_idx) is examined on its own:
+      W1  another thread's successful CAS lies between THIS allocation's read of ptrs[expected] (end of its previous
+          plain segment) and its CAS: alloc_idx has then completed a full cycle (ABA);
+      W3  another thread rewrote cached_free_pos between THIS allocation's compare with it and its CAS;
+      SC  the cached_free_pos value THIS allocation compared with had been written back stale (between the writer's
+          load of free_idx and its write-back another thread's CAS succeeded - W2 - or another thread refreshed
+          cached_free_pos, so that an older snapshot went over a newer one), or alloc_idx had been advanced past it by
+          an allocation with a window of its own - by any thread, still in effect (until the next clean refresh).
+    The pool is CORRUPTED (and stays so) once such an allocation returned a pointer that is not the current
+    ptrs[expected] (the stale pointer of the ABA: one block is now twice in circulation, another lost), or took a slot
+    beyond the usable capacity (successful allocations - completed frees > capacity - 1: the racy exhaustion test let
+    alloc_idx overtake free_idx).  An anomaly is attributed to the recorded class only if it is this allocation's own
+    window (W1 / W3 / SC) or the pool was corrupted by such an allocation before; a stale pointer or an overtake by an
+    allocation WITHOUT its own racy window is a different defect and is never attributed."""
+
+    def __init__(self, cap):
+        self.cap = cap
+        self.ring = list(range(cap))
+        self.free_idx = 0
+        self.A = self.F = 0
+        self.cas_ok = []            # (index, thread)
+        self.cache_w = []           # (index, thread): plain segments that wrote cached_free_pos
+        self.cache_stale = False    # the value now in cached_free_pos was written back stale
+        self.last_p = {}            # thread -> index of the end of its last plain segment
+        self.cmp_stale = {}         # thread -> cached_free_pos was stale when the thread last compared with it
+        self.load_at = {}           # thread -> index of its load of free_idx, write-back pending
+        self.pending = {}           # thread -> facts of its successful CAS until the return note
+        self.freeing = {}           # thread -> block it is giving back
+        self.corrupted = None       # why, once a racy allocation has corrupted the ring
+        self.unexplained = None     # a stale pointer / an overtake by an allocation without a racy window
+
+    def feed(self, i, w):
         if w[0] == "P":
             t = w[1]
-            if t in load_at:
-                if any(j > load_at[t] and u != t for j, u in cas_ok):
-                    hits.add("W2")
-                cache_w.append((i, t))
-                del load_at[t]
-            last_p[t] = i
+            if t in self.load_at:
+                ld = self.load_at[t]
+                # stale write-back: since this thread loaded free_idx another allocator's CAS succeeded (W2) or another
+                # thread refreshed cached_free_pos (this write puts an older snapshot over a newer one)
+                self.cache_stale = (any(j > ld and u != t for j, u in self.cas_ok) or
+                                    any(j > ld and u != t for j, u in self.cache_w))
+                self.cache_w.append((i, t))
+                del self.load_at[t]
+            self.last_p[t] = i
+            self.cmp_stale[t] = self.cache_stale
         elif w[0] == "E":
             t = w[1]
             if w[2] == "load" and w[3] == "free":
-                load_at[t] = i
+                self.load_at[t] = i
+            elif w[2] == "store" and w[3] == "free":
+                if t in self.freeing and 0 <= self.free_idx < self.cap:
+                    self.ring[self.free_idx] = self.freeing.pop(t)
+                self.free_idx = int(w[5])
+                self.F += 1
             elif w[2] == "casw" and w[3] == "alloc" and w[7] == "1":
-                j0 = last_p.get(t, -1)
-                if any(j > j0 and u != t for j, u in cas_ok):
-                    hits.add("W1")
-                if any(j > j0 and u != t for j, u in cache_w):
-                    hits.add("W3")
-                cas_ok.append((i, t))
-            last_ev[t] = (w[2], w[3])
-    return hits
+                j0 = self.last_p.get(t, -1)
+                e = int(w[5])
+                why = []
+                if any(j > j0 and u != t for j, u in self.cas_ok):
+                    why.append("W1")
+                if any(j > j0 and u != t for j, u in self.cache_w):
+                    why.append("W3")
+                if self.cmp_stale.get(t, False):
+                    why.append("SC")
+                self.cas_ok.append((i, t))
+                self.A += 1
+                fresh = self.ring[e] if 0 <= e < self.cap else None
+                self.pending[t] = {"why": why, "fresh": fresh, "slot": e}
+                if why:
+                    # alloc_idx was advanced on an exhaustion test that was no longer valid at the CAS: cached_free_pos is
+                    # not known to be ahead of alloc_idx any more (until the next clean refresh)
+                    self.cache_stale = True
+                if self.A - self.F > self.cap - 1:
+                    if why:
+                        self.corrupted = self.corrupted or ("alloc_idx overtook free_idx in an allocation with window %s"
+                                                            % "+".join(why))
+                    else:
+                        self.unexplained = self.unexplained or "alloc_idx overtook free_idx in an allocation without a racy window"
+        elif w[0] == "R":
+            t = w[1]
+            if w[2] == "f" and len(w) > 3 and re.match(r"b\d+$", w[3]):
+                self.freeing[t] = int(w[3][1:])
+
+    def returned(self, t, b):
+        """the return note of thread t's allocation: was the pointer the current ptrs[expected]?"""
+        pr = self.pending.get(t)
+        if pr is not None and pr["fresh"] is not None and pr["fresh"] != b:
+            if "W1" in pr["why"]:
+                self.corrupted = self.corrupted or "an allocation with window W1 returned the stale ptrs[expected] (ABA)"
+            else:
+                self.unexplained = self.unexplained or ("an allocation without window W1 returned a pointer that is not "
+                                                        "ptrs[expected]")
+
+    def explain(self, t):
+        """tag for an anomaly of thread t's current allocation: '' when it cannot be attributed to the racy windows"""
+        pr = self.pending.get(t) or {"why": []}
+        if self.unexplained and not self.corrupted and not pr["why"]:
+            return ""
+        if pr["why"]:
+            return " [racy-window %s of this allocation]" % ",".join(pr["why"])
+        if self.corrupted:
+            return " [pool corrupted earlier: %s]" % self.corrupted
+        return ""
+
+    def done(self, t):
+        self.pending.pop(t, None)
 
 
 def monitor(case, lines):
@@ -373,6 +589,30 @@ def monitor(case, lines):
     if f and f[0] == "F badcase":
         return None
     cap = _round_cap(kind, int(pool[1]))
+    dsize = _dsize_of(case)
+    refused = any(ln == "F init refused" for ln in f)
+    if refused != (cap == 0):
+        return ("init %s the requested capacity %s (data size %d)" %
+                ("refused" if refused else "accepted", pool[1], dsize))
+    if refused:
+        return None
+    if any(ln.startswith("F init ") for ln in f):
+        return "init failed: %s" % [ln for ln in f if ln.startswith("F init ")][0]
+    # block geometry as init computed it: a block must hold its head and the data, the slab all blocks
+    g = [re.match(r"F geom bs=(\d+) head=(\d+) dsize=(\d+) slab=(\d+)$", ln) for ln in f]
+    g = [m for m in g if m]
+    if g:
+        bs, head, ds, slab = [int(x) for x in g[0].groups()]
+        if head != HEAD[kind] or ds != dsize:
+            return "harness anomaly: geometry line %r does not describe this case" % g[0].group(0)
+        if bs < head + dsize:
+            return ("block geometry: block size %d is smaller than head %d + data size %d: user regions overlap the "
+                    "next block" % (bs, head, dsize))
+        if slab < cap * bs:
+            return ("block geometry: the data area obtained from the allocator has %d bytes, %d blocks of %d bytes need %d"
+                    % (slab, cap, bs, cap * bs))
+    elif any(ln.startswith("F ") and ln.split()[1] in ("ts", "sowr", "ring") for ln in f):
+        return "no geometry line"
     owner = {}               # block -> owning thread (harness-independent ownership map from the notes)
     order = []               # blocks in order of return (sowr: free order)
     pend_alloc = set()       # threads between a successful take and the return note
@@ -380,6 +620,7 @@ def monitor(case, lines):
     in_call = {}             # thread -> max number of unavailable blocks seen during its current alloc call
     obs = {}                 # ts: thread -> line index at which it last observed alloc_idx (call start / own CAS)
     cas_ok = []              # ts: (line index, thread) of successful CAS operations on alloc_idx
+    causal = TsCausal(cap) if kind == "ts" else None
 
     def unavailable():
         return len(owner) + len(pend_alloc) + sum(len(v) for v in pend_free.values())
@@ -390,17 +631,12 @@ def monitor(case, lines):
             if u > in_call[t]:
                 in_call[t] = u
 
-    def tag(i):
-        if kind == "ts":
-            h = racy_windows(lines, i)
-            if h:
-                return " [racy-window %s hit before this point]" % ",".join(sorted(h))
-        return ""
-
     for i, ln in enumerate(lines):
         w = ln.split()
         if not w:
             continue
+        if causal is not None:
+            causal.feed(i, w)
         if w[0] in ("DEADLOCK", "LIVELOCK"):
             return "scheduler reported %s" % ln
         if w[0] == "E":
@@ -427,19 +663,26 @@ def monitor(case, lines):
                     if kind == "ring":
                         return "ring pool alloc returned NULL"
                     if seen is None or seen < cap - 1:
+                        # attributed to the recorded class only when THIS thread's expected was stale (another allocator's
+                        # CAS succeeded after this thread last observed alloc_idx), or the pool was corrupted before
                         stale = kind == "ts" and any(j > obs.get(t, -1) and u != t for j, u in cas_ok)
                         return ("exhaustion reported to thread %s although at most %s of %d blocks were unavailable "
                                 "during the call (usable capacity %d)%s%s" % (
                                     t, seen, cap, cap - 1,
                                     " [stale-expected: another allocator moved alloc_idx after this thread read it]" if stale else "",
-                                    tag(i)))
+                                    (" [pool corrupted earlier: %s]" % causal.corrupted) if causal is not None and causal.corrupted else ""))
+                    if causal is not None:
+                        causal.done(t)
                 elif re.match(r"b\d+$", w[3]):
                     b = int(w[3][1:])
                     if len(w) > 4 and w[4] != "DUP":
                         return "harness anomaly: %s" % ln
+                    if causal is not None:
+                        causal.returned(t, b)
                     if b in owner or any(b in v for v in pend_free.values()):
                         return ("double hand-out: block %d returned to thread %s while still owned by thread %s "
-                                "(allocated and not freed)%s" % (b, t, owner.get(b, "?(being freed)"), tag(i)))
+                                "(allocated and not freed)%s" % (b, t, owner.get(b, "?(being freed)"),
+                                                                 causal.explain(t) if causal is not None else ""))
                     if len(w) > 4:
                         return "harness reports DUP for block %d which the monitor does not hold" % b
                     if b >= cap:
@@ -447,6 +690,8 @@ def monitor(case, lines):
                     owner[b] = t
                     order.append(b)
                     bump()
+                    if causal is not None:
+                        causal.done(t)
                 else:
                     return "harness anomaly: %s" % ln
             elif w[2] == "AUDIT":
@@ -487,18 +732,22 @@ def monitor(case, lines):
 
 def known_class(case, failure_text):
     """ts-stale-null: the ts pool used by >= 2 allocator threads reports exhaustion although free blocks exist,
-    because the NULL test compares free_idx with an alloc_pos derived from a stale expected value (or after a
-    racy window has corrupted the ring accounting).
-    ts-aba: the ts pool used by >= 2 allocator threads hands a block out twice after one of the racy
-    windows of the allocation path was hit (alloc_idx ABA, or the racy cached_free_pos)."""
+    because the NULL test compares free_idx with an alloc_pos derived from THIS thread's stale expected value
+    (another allocator's CAS succeeded after the thread last observed alloc_idx), or after a racy allocation has
+    corrupted the ring accounting.
+    ts-aba: the ts pool used by >= 2 allocator threads hands a block out twice and the double hand-out is causally the
+    recorded one: the allocation's own read-to-CAS window spans a full alloc_idx cycle (W1), or its exhaustion test
+    used the racy cached_free_pos (W3 / a stale write-back still in effect), or such an allocation corrupted the ring
+    before (stale pointer returned / alloc_idx overtook free_idx); see TsCausal.  Any other double hand-out or early
+    NULL in a multi-allocator case - e.g. one caused by an allocation with no racy window of its own - is reported."""
     pool, _ = _scen(case)
     if not pool or pool[0] != "ts" or not failure_text:
         return None
     if n_allocators(case) < 2:
         return None
-    if failure_text.startswith("double hand-out: block") and "[racy-window" in failure_text:
+    if failure_text.startswith("double hand-out: block") and ("[racy-window" in failure_text or "[pool corrupted earlier" in failure_text):
         return "ts-aba"
-    if failure_text.startswith("exhaustion reported") and ("[stale-expected" in failure_text or "[racy-window" in failure_text):
+    if failure_text.startswith("exhaustion reported") and ("[stale-expected" in failure_text or "[pool corrupted earlier" in failure_text):
         return "ts-stale-null"
     return None
 
@@ -557,7 +806,11 @@ MANIFEST = {
                    "allocator threads the property is REFUTED (known finding ts-aba: witness schedule by vm_compute, replayed "
                    "on the real code) and proved outside the known class (no commit inside another allocator's racy window).  "
                    "Tie: the real code runs under a deterministic scheduler and every trace is replayed on the extracted "
-                   "model; an independent monitor keeps its own ownership map and exhaustion count on the traces."),
+                   "model; an independent monitor keeps its own ownership map and exhaustion count on the traces.  Second "
+                   "tie: the index arithmetic between the atomic operations, the capacity rounding and the block geometry of "
+                   "the init functions are regenerated from the C text on every run and proved equal to the model's "
+                   "definitions for every capacity 2^0..2^31 and every 32-bit cursor value (gen_*_matches_model); user "
+                   "regions of data_size bytes at stride block_size are proved pairwise disjoint and inside the slab."),
     "design_ref": "DESIGN.md sections 3.2, 4.2, 4.3, 6/C05, Appendix A.8, B",
     "level_note": ("Trusted: Coq kernel, extraction, vsched scheduler, SC+views memory model as stand-in for C11; plain accesses "
                    "inside one plain segment are not interleaved (the repository is not edited); the racy cached_free_pos is "
